@@ -2,7 +2,7 @@
    clean.  Theorems only: the regenerated bounds of the signal reset loop and the mask-set used
    around fork; that every return path restores mask / dispositions / cwd / environment is
    decided by the tie (masks x dispositions x single-fault enumeration of start). *)
-From Verif Require Import Lib WorldSpec LibSpec LibSpec2.
+From Verif Require Import Lib WorldSpec WorldSpec2 LibSpec LibSpec2 ChildSpec Build.
 From Coq Require Import Lia.
 Local Open Scope Z_scope.
 
@@ -37,6 +37,39 @@ Proof.
   intros d s x H. unfold exec_disp in H. apply map_filter_lookup_Some in H. destruct H as [_ H]. exact H.
 Qed.
 Print Assumptions C12_exec_keeps_only_ignored.
+
+(* THE CHILD STARTS CLEAN, for every inherited signal state: whatever mask M and dispositions D the
+   forked child inherited (any blocked / ignored / handled signals), in every fault-free world, if
+   the child reaches a successful exec the program begins with an EMPTY signal mask and NO
+   disposition entry (i.e. the default) for every standard signal 1..31 other than the unsettable
+   SIGKILL and SIGSTOP; the child code never returns in exec mode.  (Also: exactly the argv
+   passed, the environment list handed over, the requested working directory.) *)
+Theorem C12_child_clean : forall M D C E fprd fpwr sprd spwr av pg env o (k : MW unit) w,
+  stg M D C E w ->
+  match fork_child_part fprd fpwr [po_in o; po_out o; po_err o; sprd; spwr; po_exit o]
+                        (start_child_part sprd spwr (Some av) pg env o k) w with
+  | Ret _ _ => False
+  | Stop w' => forall im, pr_image (curp w') = Some im ->
+                 im_mask im = [] /\
+                 (forall s x, 1 <= s <= 31 -> s <> SIGKILL -> s <> SIGSTOP -> ~ In (s, x) (im_disp im)) /\
+                 im_argv im = av /\
+                 im_env im = (match env with Some (_, ss) => map snd ss | None => [] end) /\
+                 im_cwd im = (match po_wd o with Some d => abs_path C d | None => C end)
+  | Hang _ | Crash _ _ => True
+  end.
+Proof. exact child_image_signals_and_launch. Qed.
+Print Assumptions C12_child_clean.
+
+(* non-vacuity: a world whose current process blocks SIGTERM and ignores SIGINT satisfies the premise *)
+Example C12_ex_state :
+  let w := build_world 1000 0 7 [] [15] [(2, DIgnore)] [47] [] 24 [] [] [] [] in
+  stg (pr_mask (curp w)) (pr_disp (curp w)) (pr_cwd (curp w)) (pr_env (curp w)) w.
+Proof.
+  cbn zeta. eexists. split; [|repeat split; reflexivity].
+  split; [|split; reflexivity]. split.
+  - eexists. split; [apply lookup_singleton|]. split; reflexivity.
+  - intros k [x Hk]. cbn in Hk. apply lookup_singleton_Some in Hk. destruct Hk as [<- _]. cbn. lia.
+Qed.
 
 Example C12_ex : In 15 (seqZ SIGNAL_LOOP_FROM (SIGNAL_LOOP_TO - SIGNAL_LOOP_FROM)).
 Proof. apply C12_reset_covers_standard_signals. lia. Qed.
